@@ -1,8 +1,9 @@
-"""Contracts for websocket/_abnf.py and websocket/_utils.py (UTF-8 validator)."""
+"""Contracts for websocket/_abnf.py (ABNF: validate, mask, format ...) and websocket/_utils.py (UTF-8 validator)."""
 import z3
 from pyvc import smt
+from pyvc import models as _M
 from pyvc.engine import Contract
-from pyvc.values import SV, Ref, Ext, z
+from pyvc.values import SV, Ref, Ext, z, tag_of
 from pyvc.smt import slen, at, slc, cat, unit
 from . import spec
 import websocket._exceptions as X
@@ -11,9 +12,9 @@ A = "websocket._abnf:"
 U = "websocket._utils:"
 
 
-def abnf_shape(data="bytes"):
+def abnf_shape(data="bytes", keysrc="keysource"):
     return ("obj", "websocket._abnf.ABNF", dict(fin="int", rsv1="int", rsv2="int", rsv3="int", opcode="int",
-                                                mask_value="int", data=data, get_mask_key=("ext", "keysource")))
+                                                mask_value="int", data=data, get_mask_key=("ext", keysrc)))
 
 
 def F(c, ref, *names, view=None):
@@ -31,10 +32,37 @@ def frame_ok(c, fr, skip, mode, view=None):
     return spec.rfc_ok(fin, r1, r2, r3, op, data, z(skip, "bool") if not isinstance(skip, bool) else z3.BoolVal(skip), mode)
 
 
+def ascii_axioms():
+    s = z3.Const("s", smt.S)
+    return [z3.ForAll([s], z3.Implies(_M.is_ascii(s), z3.And(_M.latin1_ok(s), _M.utf8_encodable(s),
+                                                            _M.latin1_enc(s) == smt.utf8_enc(s),
+                                                            slen(smt.utf8_enc(s)) == z3.Length(s))),
+                      patterns=[_M.is_ascii(s)])]
+
+
+def keybytes(k):
+    """Wire bytes of a mask key value (bytes, or ASCII str encoded)."""
+    return z(k) if tag_of(k) == "bytes" else smt.utf8_enc(z(k))
+
+
+def key_ok(k):
+    return z3.And(slen(keybytes(k)) == 4, True if tag_of(k) == "bytes" else _M.is_ascii(z(k)))
+
+
+def fmt_fields(c, fr, view=None):
+    return F(c, fr, "fin", "rsv1", "rsv2", "rsv3", "opcode", "mask_value", "data", view=view)
+
+
+def fmt_bad_fields(fin, r1, r2, r3, op, data):
+    flags_ok = z3.And(*[z3.Or(x == 0, x == 1) for x in (fin, r1, r2, r3)])
+    return z3.Not(z3.And(flags_ok, spec.known_opcode(op), slen(data) < 2 ** 63))
+
+
 def install(e):
     smt.AXIOMS.extend(spec.utf8_axioms())
+    smt.AXIOMS.extend(ascii_axioms())
 
-    # ---- validate_utf8 / _validate_utf8 ---------------------------------------------------
+    # ================================================================= UTF-8 validator (C06)
     def vu_cases():
         return [("bytes", lambda c: dict(utfbytes=c.fresh("bytes", "b")))]
 
@@ -44,7 +72,6 @@ def install(e):
                    props=("C06", "C05", "C17"), doc="result <=> wf_utf8(arg) (Unicode Table 3-7)"))
     e.add(Contract(U + "_validate_utf8", cases=vu_cases(), ensures=vu_ens, result=lambda c, a: c.fresh("bool", "valid"),
                    props=("C06",)))
-
     # simulation relation between the code's DFA states and the spec automaton (proof artefact)
     R = {0: 0, 24: 1, 36: 2, 48: 3, 60: 4, 72: 5, 84: 6, 96: 7, 12: 8}
 
@@ -59,27 +86,128 @@ def install(e):
         i = z(fr.locals["$i0"])
         st = z(fr.locals["state"], "int")
         return z3.And(st == enc_state(spec.ustate(b, i)), spec.ustate(b, i) != spec.U_TRAP)
+    e.loop("_validate_utf8", 0, inv=vu_inv, facts=lambda c, fr: [spec.umark(z(fr.locals["utfbytes"]), z(fr.locals["$i0"]))],
+           shapes={"state": "int", "codep": "int"})
 
-    def vu_facts(c, fr):
-        b = z(fr.locals["utfbytes"])
-        return [spec.umark(b, z(fr.locals["$i0"]))]
-    e.loop("_validate_utf8", 0, inv=vu_inv, facts=vu_facts, shapes={"state": "int", "codep": "int"})
-
-    # ---- ABNF.validate ----------------------------------------------------------------------
+    # ================================================================= ABNF.validate (C05)
     def val_case(c):
         fr = c.fresh(abnf_shape("bytes"), "frame")
         return dict(self=fr, skip_utf8_validation=c.fresh("bool", "skip"))
-
-    def val_req(c, a):
-        return header_shaped(c, a["self"])
     e.add(Contract(
-        A + "ABNF.validate", cases=[("bytes", val_case)], requires=val_req,
+        A + "ABNF.validate", cases=[("bytes", val_case)], requires=lambda c, a: header_shaped(c, a["self"]),
         ensures=lambda c, old, a, res: frame_ok(c, a["self"], a["skip_utf8_validation"], "not_must_reject"),
         raises=[(X.WebSocketProtocolException,
-                 lambda c, old, a: z3.Not(frame_ok(c, a["self"], a["skip_utf8_validation"], "must_accept", view=old)),
-                 None)],
+                 lambda c, old, a: z3.Not(frame_ok(c, a["self"], a["skip_utf8_validation"], "must_accept", view=old)), None)],
         props=("C05", "C06", "C17"),
         doc="normal => rfc_ok (no must-reject close code); protocol exception => not rfc_ok (must-accept codes)"))
+
+    # ================================================================= key sources (assumed; DESIGN section 3)
+    def ks_result(kind):
+        def res(c, a):
+            n = z(a["$args"][0], "int")
+            if kind == "bytes":
+                k = c.fresh("bytes", "key")
+                c.assume(slen(k.t) == n)
+            else:
+                k = c.fresh("str", "key")
+                c.assume(_M.is_ascii(k.t))
+                c.assume(z3.Length(k.t) == n)
+            d = z(c.ghost["draws"])
+            c.assume(spec.keyfn(d) == keybytes(k))
+            src = a.get("self")
+            c.assume(spec.srcfn(d) == (src.id if isinstance(src, Ext) else 0))
+            c.ghost["draws"] = SV("int", d + 1)
+            return k
+        return res
+    for kind, name in (("bytes", "ext:keysource.__call__"), ("str", "ext:keysource_str.__call__"), ("bytes", "posix:urandom")):
+        e.add(Contract(name, assumed=True, result=ks_result(kind), havoc=lambda c, a, old, k: None,
+                       doc="key source: returns n bytes (or an n-character ASCII str); draws' = draws+1, key(draws) = result, "
+                           "keysrc(draws) = identity of the source"))
+
+    def ghost0(c):
+        if "draws" not in c.ghost:
+            c.ghost["draws"] = c.fresh("int", "draws")
+            c.assume(z(c.ghost["draws"]) >= 0)
+
+    # ================================================================= _mask / ABNF.mask / _get_masked (C01, C02)
+    e.add(Contract(A + "_mask", cases=[("bytes", lambda c: dict(mask_value=c.fresh("bytes", "mask"), data_value=c.fresh("bytes", "data")))],
+                   requires=lambda c, a: slen(z(a["mask_value"])) == 4,
+                   ensures=lambda c, old, a, res: c.eq(z(res), smt.xormask(z(a["data_value"]), z(a["mask_value"]))),
+                   result=lambda c, a: c.fresh("bytes", "masked"), props=("C01", "C02"),
+                   doc="result = data xor mask cyclically: len r = len data, r[i] = data[i] xor mask[i mod 4]"))
+
+    def mask_cases():
+        def mk(kk, dk):
+            def case(c):
+                k = c.fresh(kk, "key")
+                return dict(mask_key=k, data=c.fresh(dk, "data"))
+            return case
+        return [(f"{kk}-{dk}", mk(kk, dk)) for kk in ("bytes", "str") for dk in ("bytes", "bytearray")]
+    e.add(Contract(A + "ABNF.mask", cases=mask_cases(), requires=lambda c, a: key_ok(a["mask_key"]),
+                   ensures=lambda c, old, a, res: c.eq(z(res), smt.xormask(z(a["data"]), keybytes(a["mask_key"]))),
+                   result=lambda c, a: c.fresh("bytes", "masked"), props=("C01", "C02")))
+
+    def gm_cases():
+        def mk(kk):
+            return lambda c: dict(self=c.fresh(abnf_shape("bytes"), "frame"), mask_key=c.fresh(kk, "key"))
+        return [(kk, mk(kk)) for kk in ("bytes", "str")]
+    e.add(Contract(A + "ABNF._get_masked", cases=gm_cases(), requires=lambda c, a: key_ok(a["mask_key"]),
+                   ensures=lambda c, old, a, res: c.eq(z(res), cat(keybytes(a["mask_key"]),
+                                                                  smt.xormask(z(c.getf(a["self"], "data")), keybytes(a["mask_key"])))),
+                   result=lambda c, a: c.fresh("bytes", "keyed"), props=("C01",)))
+
+    # ================================================================= ABNF.format (C01)
+    def fmt_cases():
+        def mk(ks):
+            def case(c):
+                ghost0(c)
+                return dict(self=c.fresh(abnf_shape("bytes", ks), "frame"))
+            return case
+        return [("key-bytes", mk("keysource")), ("key-str", mk("keysource_str"))]
+
+    def fmt_bad(c, old, a):
+        fin, r1, r2, r3, op, mv, data = fmt_fields(c, a["self"], view=old)
+        return fmt_bad_fields(fin, r1, r2, r3, op, data)
+
+    def fmt_post(c, old, a, res):
+        fin, r1, r2, r3, op, mv, data = fmt_fields(c, a["self"], view=old)
+        d0 = z(old.ghost["draws"])
+        src = old.getf(a["self"], "get_mask_key")
+        return z3.And(z3.Not(fmt_bad(c, old, a)),
+                      z(c.ghost["draws"]) == d0 + z3.If(mv == 1, 1, 0),
+                      z3.Implies(mv == 1, spec.srcfn(d0) == (src.id if isinstance(src, Ext) else 0)),
+                      z3.Implies(mv == 1, slen(spec.keyfn(d0)) == 4),
+                      c.eq(z(res), spec.rfc_encode(fin, r1, r2, r3, op, mv, spec.keyfn(d0), data)))
+
+    def fmt_havoc(c, a, old, k):
+        if k == 0:
+            c.ghost["draws"] = c.fresh("int", "draws")
+    e.add(Contract(A + "ABNF.format", cases=fmt_cases(),
+                   requires=lambda c, a: z3.And(z3.Or(z(c.getf(a["self"], "mask_value")) == 0, z(c.getf(a["self"], "mask_value")) == 1),
+                                               z3.BoolVal(tag_of(c.getf(a["self"], "data")) == "bytes")),
+                   ensures=fmt_post, raises=[(ValueError, fmt_bad, None)], modifies=lambda c, a: ["ghost:draws"],
+                   havoc=fmt_havoc, result=lambda c, a: c.fresh("bytes", "wirebytes"), props=("C01", "C07", "C12"),
+                   doc="result = rfc_encode(fields, key = the one value drawn from the frame's key source), shortest length form; "
+                       "ValueError iff a flag is not 0/1, the opcode is unknown or the payload has 2^63 bytes or more"))
+
+    # ================================================================= ABNF.create_frame (C01)
+    def cf_cases():
+        def mk(dk):
+            return lambda c: dict(data=c.fresh(dk, "data"), opcode=c.fresh("int", "opcode"), fin=c.fresh("int", "fin"))
+        return [(dk, mk(dk)) for dk in ("bytes", "bytearray", "str")]
+
+    def cf_post(c, old, a, res):
+        fin, r1, r2, r3, op, mv = F(c, res, "fin", "rsv1", "rsv2", "rsv3", "opcode", "mask_value")
+        d = c.getf(res, "data")
+        base = z3.And(fin == z(a["fin"]), r1 == 0, r2 == 0, r3 == 0, op == z(a["opcode"]), mv == 1)
+        if tag_of(a["data"]) == "str":
+            if tag_of(d) == "bytes":
+                return z3.And(base, z(a["opcode"]) == 1, c.eq(z(d), smt.utf8_enc(z(a["data"]))))
+            return z3.And(base, z(a["opcode"]) != 1, z(d) == z(a["data"]))
+        return z3.And(base, z3.BoolVal(tag_of(d) == "bytes"), c.eq(z(d), z(a["data"])))
+    e.add(Contract(A + "ABNF.create_frame", cases=cf_cases(), ensures=cf_post, inline_at_calls=True,
+                   raises=[(UnicodeEncodeError, lambda c, old, a: z3.BoolVal(tag_of(a["data"]) == "str"), None)],
+                   props=("C01",), doc="fields as requested, reserved bits 0, mask requested; text str payload is its UTF-8 encoding"))
 
 
 def lemma_trap(e):
